@@ -95,6 +95,10 @@ def classify_pair(p, e1, prog1, e2, prog2, x, y):
     for s in (s1, s2):
         if not s.endswith("value-mismatch"):
             return s
+    if p["dialect"] == "cl22" and compilers.feopt_on(e1) != compilers.feopt_on(e2):
+        # the build with the frontend optimiser on is the one that differs from the source meaning
+        # (that comparison is made, and classified, in compilers.differential)
+        return "compile:cl22-feopt-unsound"
     return s1
 
 
